@@ -108,3 +108,55 @@ Theorem C08_source_tie :
      = (ext_tuple (quadExtent g l x y), quadCentroid g l x y)).
 Proof. split; [exact gen_InsertPoint_coord_spec | exact gen_getQuadrantExtentAndCentroid_spec]. Qed.
 Print Assumptions C08_source_tie.
+
+From Coq Require Import Permutation.
+From Texel Require Import Snap.Model Snap.ModelInterleaved Snap.ProofsInterleaved.
+
+(** ** levels do not interact.  [addPointsAndSnapI] (Snap/ModelInterleaved.v) follows snap.addPointsAndSnap
+    statement by statement: rings outside, levels inside, the shared levelMap, per-level hit maps and
+    accumulators; [ord] gives the iteration order of every range-over-a-map statement (each execution may
+    use its own order).  For distinct requested levels it returns, for EVERY such family of orders, exactly
+    the list of the per-level results [snapLevel] (the executable model used everywhere else); it panics iff
+    some level on its own panics, and then with the panic of one of those levels. *)
+Theorem C08_levels_do_not_interact : forall ord g hots cfg P levels,
+  (forall st l, Permutation (ord st l) l) -> NoDup levels ->
+  (forall rs, addPointsAndSnapI ord g hots cfg P levels = Ok rs <->
+              mapM (fun L => do r <- snapLevel g hots P cfg L; Ok (L, r)) levels = Ok rs) /\
+  (forall e, addPointsAndSnapI ord g hots cfg P levels = Err e ->
+             exists L, In L levels /\ snapLevel g hots P cfg L = Err e) /\
+  is_ok (addPointsAndSnapI ord g hots cfg P levels) =
+  is_ok (mapM (fun L => do r <- snapLevel g hots P cfg L; Ok (L, r)) levels).
+Proof. exact levels_do_not_interact. Qed.
+Print Assumptions C08_levels_do_not_interact.
+
+(** hence SnapPolygon built on the interleaved loop is the [snapPolygon] of the per-level model *)
+Theorem C08_snapPolygon_interleaved : forall ord g P levels cfg,
+  (forall st l, Permutation (ord st l) l) -> NoDup levels ->
+  (forall r, snapPolygonI ord g P levels cfg = Ok r <-> snapPolygon g P levels cfg = Ok r) /\
+  is_ok (snapPolygonI ord g P levels cfg) = is_ok (snapPolygon g P levels cfg).
+Proof. exact snapPolygonI_agrees. Qed.
+Print Assumptions C08_snapPolygon_interleaved.
+
+(** the last loop of the Go code ranges over the points-and-lines of ALL levels: a deleted level has none *)
+Theorem C08_deleted_level_has_no_points_and_lines : forall g hots L cfg P acc,
+  ringsLoop g hots L cfg ProofsLevelThms.acc0 0 P = Ok acc -> aAlive acc = false -> aPL acc = [].
+Proof. exact dead_level_no_pl. Qed.
+Print Assumptions C08_deleted_level_has_no_points_and_lines.
+
+(** non-vacuity: shell with a spike and a hole; levels visited in the given order and in reverse order at every
+    range statement; level 0 collapses to a point (kept), with keep = false the collapsed levels are deleted *)
+Example C08_interleaved_example :
+  let g := mkGrid (mkExtent 0 0 64 64) 2 5 in
+  let P := [[(2,2);(40,2);(40,40);(21,40);(20,60);(19,40);(2,40)]; [(10,10);(10,20);(20,20);(20,10)]] in
+  let tiny := [[(2,2);(3,2);(3,3)]; [(10,10);(10,20);(20,20);(20,10)]] in
+  snapPolygonI (fun _ l => rev l) g P [5; 3; 1; 0]%nat (mkConfig true false false)
+    = snapPolygon g P [5; 3; 1; 0]%nat (mkConfig true false false) /\
+  snapPolygonI (fun _ l => l) g P [5; 3; 1; 0]%nat (mkConfig true false false) =
+    Ok [(5%nat, [[[(3,3);(41,3);(41,41);(21,41);(21,61);(19,41);(3,41)]; [(11,11);(11,21);(21,21);(21,11)]]]);
+        (3%nat, [[[(4,4);(44,4);(44,44);(20,44);(4,44)]; [(12,12);(12,20);(20,20);(20,12)]]; [[(20,44);(20,60)]]]);
+        (1%nat, [[[(16,16);(48,16);(48,48);(16,48)]]; [[(16,16)]]]);
+        (0%nat, [[[(32,32)]]; [[(32,32)]]])] /\
+  snapPolygonI (fun _ l => rev l) g tiny [5; 3]%nat (mkConfig true false false) =
+    Ok [(5%nat, [[[(21,11);(21,21);(11,21);(11,11)]]; [[(3,3)]]]); (3%nat, [[[(20,12);(20,20);(12,20);(12,12)]]; [[(4,4)]]])] /\
+  snapPolygonI (fun _ l => rev l) g tiny [5; 3]%nat (mkConfig false false false) = Ok [].
+Proof. vm_compute. repeat split; reflexivity. Qed.
